@@ -17,36 +17,6 @@ def classify(e):
     return "deser" if isinstance(e, DeserializeException) else "crash"
 
 
-def equal_up_to_post_alonzo(x, y):
-    """x == y once every TransactionOutput carrying an inline datum or a script has post_alonzo=True on both sides
-    (flags are changed in place and restored: copy.deepcopy of an OrderedSet loses its elements)"""
-    import dataclasses
-    from pycardano import TransactionOutput
-    touched = []
-
-    def walk(v, depth=0):
-        if depth > 8:
-            return
-        if isinstance(v, TransactionOutput):
-            if (v.datum is not None or v.script is not None) and not v.post_alonzo:
-                touched.append(v)
-                v.post_alonzo = True
-            return
-        if isinstance(v, (list, tuple)):
-            for e in v:
-                walk(e, depth + 1)
-        elif dataclasses.is_dataclass(v):
-            for f in dataclasses.fields(v):
-                walk(getattr(v, f.name, None), depth + 1)
-    walk(x)
-    walk(y)
-    try:
-        return bool(touched) and x == y
-    finally:
-        for v in touched:
-            v.post_alonzo = False
-
-
 def check_object(ctx, case):
     """case = {cls, seed, depth}: the object is regenerated from the seed"""
     g = T.Gen(random.Random(case["seed"]), ctx.extra.setdefault("_cov", {}))
@@ -95,15 +65,7 @@ def check_object(ctx, case):
         except Exception as e:
             eq = False
         if not eq:
-            # recorded defect: the only difference is the wire-redundant post_alonzo flag of outputs that carry an
-            # inline datum or a reference script (identical bytes)
-            fid = None
-            try:
-                if y.to_cbor() == b and equal_up_to_post_alonzo(x, y):
-                    fid = "KF-C01-post-alonzo-flag"
-            except Exception:
-                pass
-            ctx.violation(f"{name}: decode(encode(x)) != x", desc, repr(x)[:400], repr(y)[:400], finding=fid)
+            ctx.violation(f"{name}: decode(encode(x)) != x", desc, repr(x)[:400], repr(y)[:400])
         else:
             try:
                 b2 = y.to_cbor()
